@@ -28,8 +28,12 @@ CLAIMED = {
                 text="The attribute state machine is extracted from the source (48 state x class transitions + end-of-input actions) and the finite product with the grammar transducer of the property statement is explored completely: on every prefix of every well-formed tag body, of any length, both emit the same word/value spans and accept together; quoted values are opaque; delimiters are stripped by once-only operations. Extraction and the grammar table are the trusted base.", ref="5 C09 / 3.5"),
     "C10": dict(cat="other", tech="static analysis: linear must-flow by path enumeration of one iteration of parser::tree's loop (abstract interpretation) + name-use discipline query",
                 text="Token linearity only: on each of the enumerated paths of the loop body the fetched token is placed exactly once and the child list of the recursive call is consumed exactly once; parse() starts at token 0. Pairing semantics (innermost match, demotion, order) are not decided.", ref="5 C10"),
+    "C11": dict(cat="other", tech="static analysis: abstract-interpretation normal form of the unwrap builder (extents) + complete applicability decision table over scan results and the ordering of the two inner positions + strategy-selection queries",
+                text="Clauses only (line geometry is run-time): the opening part is tag start .. second non-pausing forward line break, the closing part is second backward line break + 1 .. tag end (tag line + adjacent wrapper line on each side); the pair is built exactly when all four line breaks exist and the closing wrapper line does not start before the opening wrapper line ends (48-row table; E = S is exactly two lines between the tags), otherwise the element is untouched; the strategy is chosen by the unwrap-block attribute. That the second line break is 'the line after' in every layout and survival of inner lines are not decided here.", ref="5 C11"),
     "C12": dict(cat="other", tech="static analysis: provenance/clamp query on dedent ranges + scanner byte tables + path rule on the backward scanner (byte 0) + index-space rule with symbolic linear forms on merge_markers",
                 text="Four clauses: only blanks are consumed (both endpoints min(_, first non-blank), anchored at the line start; seam byte established as the line break); dedent amount saturating; the backward line-break scan examines byte 0 before leaving; head/tail pair indices point at each other and spliced child indices are rebased by p -> p - offset + current + 1 under the guard offset <= p < end. Uniform shift amount and behaviour at nesting depth >= 2 beyond index validity are not decided.", ref="5 C12"),
+    "C13": dict(cat="other", tech="static analysis: exhaustive decision tables of the seam formatters (abstract interpretation) + hull-by-ordering-enumeration of format_block + path rule on IndentRemover's backward scan",
+                text="Clauses only (blank-line arithmetic over layouts is run-time and not decided): the range tidied at a seam is the hull of the four seam formatters asked at the seam; EmptyLineRemover removes the residual line break exactly when the seam is a line break and neither neighbour line is blank (complete 64-row table); Prev/NextLineBreakRemover remove one blank line exactly when two blank-separated line breaks precede/follow; IndentRemover must treat the start of the file as a line start (known finding: it does not); ranges are merged within their union before deletion.", ref="5 C13"),
     "C14": dict(cat="other", tech="static analysis: abstract-interpretation byte-class tables of the scanners + constant-argument query on scanner call sites + provenance grammar of formatter range endpoints",
                 text="Locality through its mechanisms: scanners stop at the first non-blank when pausing (complete tables), every seam formatter calls them pausing, every returned endpoint is seam / pausing-scan result (+1), dedent ranges are clamped per line. Decides these clauses, not verbatim survival of every stretch.", ref="5 C02/C14"),
     "C15": dict(cat="other", tech="static analysis: sibling agreement on abstract-interpretation normal forms of the three entry points + effect reachability over the resolved call graph",
@@ -45,8 +49,6 @@ CLAIMED = {
 }
 
 NA = {
-    "C11": "line-count geometry between run-time positions (second line break after/before, start > end); no structural clause is both checkable and necessary beyond those used for C02/C04 (DESIGN.md section 6)",
-    "C13": "the number of blank lines that remain is arithmetic over the layout around each seam produced by the union of four formatters; static rules bound what kind of byte is deleted (C02/C14), not how many (DESIGN.md section 6)",
     "C19": "idempotence/composition relates the outputs of successive runs; no property of one program text decides it (DESIGN.md section 6)",
 }
 
